@@ -25,11 +25,20 @@ ASSUMPTIONS = [
 ]
 
 
+def step_params(step):
+    """Parameters of the append step without the object it works on (self, or the first parameter when the step
+    is a module-level function)."""
+    return list(step.params[1:])
+
+
 def find_step(ctx, appenders):
     """The ragged append step: a RaggedArray method that calls the Array
     appender on both sub-arrays."""
     c = ctx.repo.cls('RaggedArray')
-    for f in c.all_funcs():
+    m = ctx.repo.module('raggedarray')
+    # a method of RaggedArray or — when it was moved out of the class — a private module-level function of raggedarray.py
+    cands = list(c.all_funcs()) + [f for f in m.funcs.values() if not f.is_public]
+    for f in cands:
         roles = {}
         for n, cal in ctx.E.callees(f):
             if cal in appenders and cal.cls is not None and cal.cls.name == 'Array' and \
@@ -96,13 +105,13 @@ def run(ctx):
     c = ctx.repo.cls('RaggedArray')
     # D1: callers of the step
     n = 0
-    for f in c.all_funcs():
+    for f in list(c.all_funcs()) + list(ctx.repo.module('raggedarray').funcs.values()):
         for node, cal in ctx.E.callees(f):
             if cal is not step or not isinstance(node, ast.Call):
                 continue
             n += 1
             in_loop = any(isinstance(p, (ast.For, ast.While)) for p, _ in enclosing(f.node, node))
-            construct = f'{"loop-call" if in_loop else "call"}::{step.qualname}'
+            construct = f'{"loop-call" if in_loop else "call"}::<ragged-append-step>'
             inst = f'{f.qualname}: the ragged append step is protected by a handler that restores both sub-arrays'
             tr = protected(f, node)
             if tr is None:
@@ -123,12 +132,12 @@ def run(ctx):
         if tr is None:
             ctx.bad('R-RECOVER', 'D1', step, ic, construct, inst,
                     detail='values are written, then the index row; if the second write fails nothing removes '
-                           'the values that were just appended')
+                           'the values that were just appended', role_key='ragged-append-step')
         else:
-            ctx.ok('R-RECOVER', 'D1', step, ic, construct, inst)
+            ctx.ok('R-RECOVER', 'D1', step, ic, construct, inst, role_key='ragged-append-step')
     values_before_index(ctx, step, vcalls, icalls, 'D2')
     # D2b: item length taken from the raw item before the first write; row = [start, start + n]
-    params = [p for p in step.params if p != 'self']
+    params = step_params(step)
     item = params[0]
     lens = [n for n in own_nodes(step.node) if isinstance(n, ast.Call) and dotted(n.func) == 'len'
             and n.args and norm(n.args[0]) == item]
